@@ -130,7 +130,7 @@ impl LangInterpreter for Italian {
             "tredici" | "tredicesim" => b.put(b"13"),
             "quattordici" | "quattordicesim" => b.put(b"14"),
             "quindici" | "quindicesim" => b.put(b"15"),
-            "sedici" | "dedicesim" => b.put(b"16"),
+            "sedici" | "sedicesim" | "dedicesim" => b.put(b"16"),
             "diciassette" | "diciassettesim" => b.put(b"17"),
             "diciotto" | "diciottesim" => b.put(b"18"),
             "diciannove" | "diciannovesim" => b.put(b"19"),
@@ -150,7 +150,7 @@ impl LangInterpreter for Italian {
             "sessantuno" | "sessantun" | "sessantunesim" => b.put(b"61"),
             "sessantotto" | "sessantottesim" => b.put(b"68"),
             "settanta" | "settantesim" => b.put(b"70"),
-            "settantuno" | "settantun" | "settanunesim" => b.put(b"71"),
+            "settantuno" | "settantun" | "settantunesim" | "settanunesim" => b.put(b"71"),
             "settantotto" | "settantottesim" => b.put(b"78"),
             "ottanta" | "ottantesim" | "ttanta" | "ttantesim" => b.put(b"80"),
             "ottantuno" | "ottantun" | "ottantunesim" | "ttantuno" | "ttantun" | "ttantunesim" => {
